@@ -30,6 +30,7 @@ EXPLANATION = (
     "duplicated class-limit block in the crack-opening loop and the duplicated index-normalisation helper of the two "
     "damage calculators agree statement by statement. Not decided: insensitivity to non-reversal samples, monotonicity, "
     "ordering of the 10/50/90 % lifetimes.")
+EXPLANATION += (" R-C10-4: per-point knee values spread over the hysteresis table follow the table's index layout (hysteresis_index outermost, assessment_point_index fastest), by a shape algebra over ones/array/tile/repeat/flatten. R-C10-5: the lifetime branches switch at the end of the table the failure position refers to (shared with R-C09-6) - needed for monotonicity in the load level.")
 ASSUMPTIONS = [
     "pandas groupby(level).reduction() reduces within each group only; element-wise numpy/pandas operations keep rows apart",
 ]
